@@ -881,6 +881,7 @@ def set_oracle(o):
 
 def decide(c):
     if isinstance(c, bool): return c
+    if isinstance(c, int): return c != 0
     if type(c).__name__ == 'bool_': return bool(c)
     if isinstance(c, Frac): return bool(c)
     if c.op == 'not': return not decide(c.a)
